@@ -402,6 +402,37 @@ impl Catalog {
             stats.total_bytes_freed += bytes_freed;
         }
 
+        // Relations created by transactions that aborted: their catalog rows are about to be
+        // removed and nothing else knows their pages. Release them first, or they are lost for good.
+        let abandoned_roots: Vec<PageId> = {
+            let mut meta_table = builder.build_tree(self.meta_table);
+            let mut roots = Vec::new();
+
+            if !meta_table.is_empty()? {
+                for iter_result in meta_table.iter_forward()? {
+                    if let Ok(pos) = iter_result {
+                        meta_table.with_cell_at(pos, |bytes| {
+                            let tuple = Tuple::from_slice_unchecked(bytes)?;
+                            if snapshot.is_transaction_aborted(tuple.xmin()) {
+                                let reader = TupleReader::from_schema(&schema);
+                                let layout = reader.parse_last_version(bytes)?;
+                                let row = TupleRef::new(bytes, layout).to_row_with(&schema)?;
+                                roots.push(Relation::from_meta_table_row(row).root());
+                            }
+                            Ok::<(), TupleError>(())
+                        })??;
+                    }
+                }
+            }
+
+            roots
+        };
+
+        for root in abandoned_roots {
+            let mut tree = builder.build_tree_mut(root);
+            tree.dealloc()?;
+        }
+
         // vacuum the meta table itself
         stats.meta_table_bytes_freed += self.vacuum_btree(
             self.meta_table,
